@@ -4058,6 +4058,10 @@ def main():
     stext2, sproblems2 = c2v_send.generate_send()
     write_if_changed(c2v_send.SEND_OUT, stext2, "GeneratedSend.v")
     mproblems = mproblems + sproblems2
+    import c2v_store                    # one stored PDU -> one table operation (own module: tools/c2v_store.py)
+    stext3, sproblems3 = c2v_store.generate_store()
+    write_if_changed(c2v_store.STORE_OUT, stext3, "GeneratedStore.v")
+    mproblems = mproblems + sproblems3
     for p in problems + sproblems + mproblems:
         print("c2v: problem:", p)
     return 0
